@@ -233,11 +233,16 @@ def excise_match(text: str, scrutinee: str, replacement: str, report: DropReport
     return fr.apply()
 
 
-def desugar_try(text: str, report: DropReport, item: str) -> str:
+def desugar_try(text: str, report: DropReport, item: str, keep: Optional[List[int]] = None) -> str:
     """W11: `e?` -> `match e { Ok(v) => v, Err(e) => return Err(From::from(e)) }`, the language-defined
     meaning of `?` on a Result.  Needed only where `?` converts the error type: Verus keeps the converted
-    value opaque for `?` but not for the explicit `From::from` call."""
+    value opaque for `?` but not for the explicit `From::from` call.  `keep`: occurrences (source order, from 0)
+    that do NOT convert the error type and stay `?` (Verus handles those natively, and has no contract for the
+    reflexive `From<T> for T`)."""
     n = 0
+    occ = 0
+    keep = set(keep or [])
+    KEEP = ".keep_try__()"
     while True:
         fr = R.Frag(text)
         ct = fr.ct
@@ -248,6 +253,12 @@ def desugar_try(text: str, report: DropReport, item: str) -> str:
                 break
         if q is None:
             break
+        if occ in keep:
+            fr.replace(ct[q].start, ct[q].end, KEEP)
+            text = fr.apply()
+            occ += 1
+            continue
+        occ += 1
         # walk back over the postfix chain
         j = q - 1
         while True:
@@ -283,6 +294,7 @@ def desugar_try(text: str, report: DropReport, item: str) -> str:
         n += 1
         if n > 50:
             raise ExtractError(f"{item}: runaway `?` desugaring")
+    text = text.replace(KEEP, "?")
     if n:
         report.add("W11", item, "`e?` desugared to `match e { Ok(v) => v, Err(e) => return Err(From::from(e)) }`", n)
     return text
@@ -343,6 +355,39 @@ def excise_stmt(text: str, anchor: str, replacement: str, report: DropReport, it
     fr.replace(ct[i].start, ct[bc].end, replacement)
     report.add("W10", item, f"statement `{anchor} {{..}}` ({n_lines} lines) excised" + (f" -> `{replacement}`" if replacement else ""))
     return fr.apply()
+
+
+def name_wildcard_params(text: str, report: DropReport, item: str) -> str:
+    """W3: Verus wants every function parameter to be a plain identifier: `_: T` in the signature becomes `_argN: T`
+    (an unused parameter stays unused)."""
+    fr = R.Frag(text)
+    ct = fr.ct
+    # the signature: from `fn` to the body's `{` (or `;`)
+    try:
+        i = next(k for k, t in enumerate(ct) if t.text == "fn")
+    except StopIteration:
+        return text
+    k = i
+    while k < len(ct) and ct[k].text != "(":
+        k += 1
+    if k >= len(ct):
+        return text
+    e = R.match_close(ct, k)
+    n = 0
+    depth = 0
+    for j in range(k, e):
+        tt = ct[j].text
+        if tt in R.OPEN:
+            depth += 1
+        elif tt in (")", "]", "}"):
+            depth -= 1
+        elif tt == "_" and depth == 1 and ct[j + 1].text == ":" and ct[j - 1].text in ("(", ","):
+            fr.replace(ct[j].start, ct[j].end, f"_arg{n}")
+            n += 1
+    if n:
+        report.add("W3", item, "wildcard parameter(s) `_: T` named `_argN: T`", n)
+        return fr.apply()
+    return text
 
 
 def w9_panic_args(text: str, report: DropReport, item: str) -> str:
@@ -711,6 +756,7 @@ class Unit:
             if icfg.get("drop_cfg_features"):
                 text = drop_cfg_gated(text, icfg["drop_cfg_features"], self.report, itemname)
             text = strip_attributes(text, self.report, itemname) if icfg.get("strip_attrs", True) else text
+            text = name_wildcard_params(text, self.report, itemname)
             if self.cfg.get("erase_await") or icfg.get("erase_await"):
                 text = erase_await(text, self.report, itemname)
             sink = icfg.get("yield_sink") or self.cfg.get("yield_sink")
@@ -730,7 +776,7 @@ class Unit:
                 text = strip_macro_calls(text, ["panic"], icfg["panic_to"], self.report, itemname, "W9b")
             text = w9_panic_args(text, self.report, itemname)
             if icfg.get("desugar_try"):
-                text = desugar_try(text, self.report, itemname)
+                text = desugar_try(text, self.report, itemname, icfg.get("try_keep"))
             dm = icfg.get("drop_macros", self.cfg.get("drop_macros"))
             if dm:
                 # W6: logging macro invocations (slog `debug!`/`error!`/..) become the unit value
@@ -760,7 +806,7 @@ class Unit:
                 header = icfg["header"] + " {"
             kids = {f"{c.kind} {c.name}": c for c in src.children(it) if not c.is_test}
             parts = [header]
-            owner = owner_key(it.name)
+            owner = icfg.get("owner") or owner_key(it.name)
             for sel in only:
                 if sel not in kids:
                     raise ExtractError(f"{relfile}: `{sel}` not found in `{it.name}`")
@@ -820,6 +866,9 @@ class Unit:
                         spd = self._splice_for(kids[sel].name, variant, it.name)
                         if spd.ret or spd.contract:
                             ktext = splice_decl(ktext, spd, f"{it.name}::{kids[sel].name}")
+                    elif kids[sel].kind == "fn":
+                        # a provided (default) method: verified like any function, once, generically
+                        ktext = splice_fn(ktext, self._splice_for(kids[sel].name, variant, it.name), f"{it.name}::{kids[sel].name}", vacuity)
                     parts.append(ktext)
                 if icfg.get("extra_items"):
                     # ghost items (spec fn declarations) added to the trait: annotation only
